@@ -187,10 +187,9 @@ class Section(Entity):
         if not isinstance(obj, Section):
             raise TypeError("Object to be copied is not a Section")
 
-        if obj._sec_parent:
-            src = "{}/{}".format("sections", obj.name)
-        else:
-            src = "{}/{}".format("metadata", obj.name)
+        # the section's own HDF5 object is the source: a handle that was not
+        # obtained from create_section does not know what kind of parent it has
+        src = obj._h5group.group
 
         clsname = "sections"
         if not name:
